@@ -321,6 +321,20 @@ type newTorrentEvent struct {
 // apply begins seeding / leeching a new torrent.
 func (e newTorrentEvent) apply(s *state) {
 	ctrl, ok := s.torrentControls[e.torrent.InfoHash()]
+	if !ok || (ctrl.dispatcher.Complete() && !e.torrent.Complete()) {
+		// e.torrent was opened by the requester before this event was applied. In the
+		// meantime the download may have completed, or the torrent may have been
+		// removed from disk (manual removal, idle timeout). Acting on the stale view
+		// would replace a complete torrent by an in-progress one whose timeout then
+		// deletes the cached blob, or report success for a blob that is gone. So take
+		// a fresh look at what is on disk.
+		t, err := s.sched.torrentArchive.GetTorrent(e.namespace, e.torrent.Digest())
+		if err != nil {
+			e.errc <- ErrTorrentRemoved
+			return
+		}
+		e.torrent = t
+	}
 	if ok && ctrl.dispatcher.Complete() && !e.torrent.Complete() {
 		// The scheduler considers the torrent complete, while it is
 		// actually not on disk. This happens when the disk cache
